@@ -214,12 +214,14 @@ SEG = {0: "one Read over the whole body", 1: "one byte per Read", 2: "1..1500 by
 
 def delivery_of(ck, c):
     """how the body of this request was delivered, and the body itself (re-rendered by the harness) when it is not huge"""
-    d = {"mode": SEG.get(c.get("seg_mode", 0)), "seg_seed": c.get("seg_seed"), "body_len": c.get("body_len"),
+    d = {"insert_step": ("first insert failed: ProcessRequest run twice on the same request object, rows of the retried block judged; " +
+                         (c.get("retry_diff") or "blocks identical")) if c.get("retry") else "ProcessRequest run once",
+         "mode": SEG.get(c.get("seg_mode", 0)), "seg_seed": c.get("seg_seed"), "body_len": c.get("body_len"),
          "read_calls": c.get("reads"), "first_segment_sizes": c.get("seg_head")}
     try:
         inp = os.path.join(ck.work, "body_in.jsonl")
         outp = os.path.join(ck.work, "body_out.jsonl")
-        open(inp, "w").write(json.dumps({k: c.get(k) for k in ("id", "class", "fmt", "otlp", "zip", "sep", "trail_nl", "seg_mode", "seg_seed")}) + "\n")
+        open(inp, "w").write(json.dumps({k: c.get(k) for k in ("id", "class", "fmt", "otlp", "zip", "sep", "trail_nl", "seg_mode", "seg_seed", "retry")}) + "\n")
         rc, _ = ck.go_run("spans", ["--cases", inp, "--out", outp], env_extra={"SPANS_DUMP_BODY": "1"})
         if rc == 0:
             o = json.loads(open(outp).readline())
@@ -278,6 +280,11 @@ def run_spans(ck):
         w = min(panics, key=size_of)
         ck.violation({"property": PID, "kind": "accepted spans are not stored: the insert service panicked on the parser's output", "case": w,
                       "replay": "harness spans --cases <file holding the 'case' object on one line> --out /dev/stdout"})
+    # process_request_leaves_request_unchanged: controller.doPush re-submits the SAME request object after a failed insert
+    changed = [c for c in cases if c.get("retry_diff")]
+    ck.obligation("process_request_leaves_request_unchanged: a second ProcessRequest of the same TempoSamples/TempoTag builds the same block "
+                  "(%d requests processed twice)" % sum(1 for c in cases if c.get("retry")), not changed,
+                  "case ids: %s; %s" % ([c["id"] for c in changed[:10]], changed[0]["retry_diff"][:300] if changed else ""))
     cases = [c for c in cases if not c.get("panic")]
     byid = {c["id"]: c for c in cases}
     tot = {"M": [], "V": [], "R": []}
@@ -310,6 +317,10 @@ def run_spans(ck):
                                      "rows_ok (one trace row per span with its ids/times/name/service/payload), tags_ok (tag rows = flattened attributes "
                                      "with the span's ids and times) or reads_ok (OutputQuery returns the pushed span) is false",
                       "replay": "harness spans --cases <file holding the 'case' object on one line> --out /dev/stdout"})
+    elif changed and not mism:
+        w = min(changed, key=size_of)
+        ck.violation({"property": PID, "kind": "ProcessRequest changes the request it is given: a retried insert stores different rows", "case": w,
+                      "delivery": delivery_of(ck, w)})
     elif mism:
         worst = min((byid[i] for i in mism), key=size_of)
         diag = sorted({QUIRKS[q] for (i, q) in tot["R"] if i == worst["id"]})
@@ -338,9 +349,11 @@ def run_spans(ck):
                             "(1-4 spans, shuffled fields, 1-37 digit ids, string/number times incl. the *1000 overflow edge, endpoints, string and non-string "
                             "tags, repeated fields, one malformed field in 20%%), six Zipkin requests of 40-320 spans with bodies of 74-180 kB (beyond the decoders' 64 KiB "
                             "read buffers) in both framings; every body is delivered to the parser either in one piece (35%%), byte by byte (10%%), in 1..1500-byte "
-                            "(40%%) or 1..64-byte (15%%) Reads; each request goes through the real parser, every produced row through the real "
+                            "(40%%) or 1..64-byte (15%%) Reads; for 40%% of the requests the insert step is run as after a failed insert (ProcessRequest twice on the same request "
+                            "object, the second block judged); each request goes through the real parser, every produced row through the real "
                             "OutputQuery; non-trivial = accepted with >= 2 spans or >= 4 tag rows; distinct by content. " % env["SPANS_DEPTH"])
     ck.extra["input_distribution"] = hist
+    ck.extra["requests_with_retried_insert"] = sum(1 for c in cases if c.get("retry"))
     ck.extra["delivery_modes"] = {SEG[k]: sum(1 for c in cases if c.get("seg_mode", 0) == k) for k in SEG}
     ck.extra["bodies_over_64KiB"] = sum(1 for c in cases if c.get("body_len", 0) > 65536)
     ck.extra["accepted_requests"] = sum(1 for c in cases if not c["err"])
@@ -361,7 +374,7 @@ def run_replay(ck):
         return
     inp = os.path.join(ck.work, "replay_in.jsonl")
     outp = os.path.join(ck.work, "replay_out.jsonl")
-    open(inp, "w").write(json.dumps({k: c.get(k) for k in ("id", "class", "fmt", "otlp", "zip", "sep", "trail_nl", "seg_mode", "seg_seed")}) + "\n")
+    open(inp, "w").write(json.dumps({k: c.get(k) for k in ("id", "class", "fmt", "otlp", "zip", "sep", "trail_nl", "seg_mode", "seg_seed", "retry")}) + "\n")
     rc, out = ck.go_run("spans", ["--cases", inp, "--out", outp])
     if rc != 0:
         ck.obligation("harness spans ran the replay", False, out[-1500:])
